@@ -185,8 +185,10 @@ class WriterDriver(explore.Driver):
             if kind == "W":
                 k = op[1]
                 ev = gen.take(st.pool, st.next, st.next + k)
+                # at odd offsets the traces go in one call per trace name
+                split = bool(st.next % 2)
                 st.next += k
-                gen.store_events(hw, ev)
+                gen.store_events(hw, ev, split_trace=split)
                 for feat, data in ev.items():
                     if st.mode == "replace" or feat not in mdl["feats"]:
                         if feat == "trace":
